@@ -72,7 +72,69 @@ CLAIM = dict(
           "it, so state shared between entries handed to the caller (a shared default set) is a violation once the caller "
           "edits one of them. Trees are judged on their documented structure (a child that is an instance of RoutingTree "
           "or of any subclass continues the route, anything else is a vertex). build_routing_tables (deprecated, "
-          "place_and_route/utils.py) is not part of this property's anchors and is not exercised."),
+          "place_and_route/utils.py) is not part of this property's anchors and is not exercised. "
+          "HARDENING (what is validated by which stream; every verdict comes from the Lean oracles TablesSpec / LoadSpec / "
+          "TablesLoadSpec / ReadbackSpec or from the comparison with the Lean model): "
+          "[1 argument kinds] forest stream, option ak (35% of forests) and the decorations (40%): net identifiers as "
+          "pair, int, str containing % and {}, tuples of length 0-3, namedtuple, frozenset, plain object; routes / net_keys "
+          "as dict, OrderedDict, defaultdict, dict subclass; (key, mask) as tuple or namedtuple; keys and masks as int, "
+          "bool, IntEnum member, numpy integer, and (8% of the pools) around 2**31, 2**32, 2**53+1, 2**63, 2**64, 2**100 "
+          "(the conversion treats them as opaque; the toC04 comparison is skipped there because C04's keys are 32-bit); "
+          "chip coordinates shifted by such numbers; the chip argument of RoutingTree as tuple, list, namedtuple; children "
+          "as list / tuple / set (a one-shot iterator is not legal: the documented type is list and traverse() may be "
+          "called again); vertices of every hashable kind incl. bool and tuples of length 0, 1, 3; RoutingTree subclasses. "
+          "Machine streams, option ak (half of the single-load, lossy and session cases; class Caller): an entry's route "
+          "as set, frozenset, list with a duplicate, tuple, one-shot iterator; sources default / {None} / a link / both / "
+          "a list; entries of an application subclass of RoutingTableEntry; keys and masks as bool / IntEnum / numpy "
+          "integer; the table as list, list subclass, tuple (the code takes len(): no generators); routing_tables as "
+          "dict, OrderedDict, defaultdict, dict subclass with (x, y) keys as tuple or namedtuple; x, y, app_id as int, bool, "
+          "IntEnum member (rig never passes numpy integers here); packed records as bytes, bytearray, memoryview; empty "
+          "table, empty dict, empty forest, app id 0, chip (0, 0), key 0, mask 0. Not varied: Routes members stay Routes "
+          "(entries' route sets are documented as sets of Routes); keys beyond 32 bits on the load path are out of the "
+          "documented domain and only compared (struct.error). "
+          "[2 optional parameters] RoutingTree(chip, children): children omitted, None, [], by keyword; "
+          "RoutingTableEntry(route, key, mask, sources): sources default and explicit, positional and keyword; "
+          "routing_tree_to_tables(routes, net_keys) positional and keyword; load_routing_table_entries(entries, x, y, "
+          "app_id), load_routing_tables(routing_tables, app_id), get_routing_table_entries(x, y), "
+          "clear_routing_table_entries(x, y, app_id): positional, keyword, from the controller's context (with mc(x=, y=, "
+          "app_id=)), mixed, and a context naming another chip that the explicit arguments / the dict override; "
+          "unpack_routing_table_entry(packed) and traverse() have nothing optional. "
+          "[3 scale, one case each per run, CPU limit raised] a chain of 1200 (thorough 3000) hops with a second net "
+          "joining half-way, sent to Lean in a flat form because the JSON encoder cannot nest that deep; a node with 600 "
+          "(5000) children plus six subtrees; 300 (2000) nets with one key crossing one chip; a table of 1025 entries "
+          "(thorough also 65536 and 65537: the count field of the load command has 16 bits) - every valid allocator refuses "
+          "it, the call must raise the router error and send nothing else; one load_routing_tables call over 150 (256) "
+          "chips of a 16x16 machine. Nothing in scope recurses (traverse is an iterative breadth-first search); app ids "
+          "are documented as 0..255 and 256+ is not fed. "
+          "[4 histories] session stream (two controllers used alternately, same call repeated, twins of a table in both "
+          "orders via in-place edits) and history stream (fhist: the same conversion repeated; twin forests differing in "
+          "one route / key / node class / child / enum kind / argument kinds, in both orders; two forests used "
+          "alternately); rig's modules are forgotten and imported afresh at the start of every session and history, so "
+          "module-level, class-level and default-argument state starts clean and the replay of a history reproduces. "
+          "[5 caller keeps and edits] (a) passed objects edited in place and passed again: table lists (sessions), the "
+          "routing_tables dict object (sessions: chips added, rebound, deleted), the trees' children lists, the routes and "
+          "net_keys dicts (history stream: add / delete a child anywhere, change a net's key, delete a net); (b) returned "
+          "objects edited: read-back lists and their entries' sources, the dict / lists / entries returned by "
+          "routing_tree_to_tables; (c) kept results re-read at the end of the session / history: a read-back list or a "
+          "tables dict that changed after it was returned without the caller touching it is the finding "
+          "result-changed-after-return; (d) traverse() generators advanced alternately on one or two trees, interleaved "
+          "with conversions, resumed later or abandoned half-way; what they yielded is compared with the Lean model's "
+          "traversal (theorem traverse_exact), a deviation is a broken correspondence. "
+          "[6 faults then continued use] lossy stream (alloc_rtr request / reply lost) and session steps with one network "
+          "fault at the n-th datagram of the load: request lost, reply lost after execution, a retryable return code, a "
+          "fatal return code, the datagram and all its retransmissions lost; faults the protocol hides must leave the "
+          "load exact (judged as usual), a call that fails with the connection's error is not judged itself (the property "
+          "does not say what it leaves behind; the simulator is still checked against the specification) and the same "
+          "controllers go on being used: every later step is judged from the routers as they then are. "
+          "[7 configuration] per case: scp_data_length 16..512, window 1..8, n_tries 2/5, timeout 0.5/1/4 ticks, machine "
+          "chips anywhere in the 256x256 coordinate space; per chip: sv.sdram_sys, sv.rtr_copy, router content, allocation "
+          "policy. Not varied: the layout of the sv struct and the SCP command numbers - they are data of the repository, "
+          "translated into the Lean model on every run (a caller-supplied struct layout is not modelled); core counts, "
+          "link states and version strings are not read by the functions in scope. "
+          "[8 non-termination] every call of the implementation runs under common.cpu_limit: 2 s for a conversion, a "
+          "traversal step or an unpack, 30 s for a controller call, 120-300 s for the scale cases, a tenth of that after "
+          "three hangs; a call that does not return is the finding did-not-return (the model's runs end: tables_total, "
+          "load_exact, load_tables_spec, readback_exact); a session stops at a hang."),
     technique="Lean 4 theorems over a hand-written model + differential correspondence + Lean spec as oracle")
 
 THEOREMS = ["routes_enum_documented", "traverse_exact", "tables_exact", "multisource_iff", "tables_total",
@@ -116,7 +178,10 @@ RULE = ("pure cases = forests of 1-6 nets on a 4x4 torus: random branching trees
         "has one, so that every reported case is self-contained; non-trivial = (pure) at "
         "least two nodes share chip+key+mask, (machine) a table of >= 2 entries was loaded or an allocation failed with a "
         "non-empty router or a block was leaked by a retransmitted allocation, (session) a list object that had been "
-        "loaded before was edited and loaded again; distinct = distinct canonical JSON of the case")
+        "loaded before was edited and loaded again; argument kinds / calling conventions (option ak), big numbers, "
+        "histories of conversions with in-place edits, twins and lazily consumed traversals (kind fhist: non-trivial when "
+        "more than one conversion or a traversal took place), network faults inside sessions, scale cases and the CPU "
+        "limit are described item by item in the claim's note (HARDENING); distinct = distinct canonical JSON of the case")
 
 LINK_VEC = simmachine.LINK_VEC
 W = H = 4
@@ -662,7 +727,7 @@ def expand_scale_forest(case):
             l = i % 6
             dx, dy = LINK_VEC[l]
             nets.append({"key": 0x42, "mask": 0xff, "tree": {"c": [5 - dx, 5 - dy], "k": [
-                [l, {"c": [5, 5], "k": [[0, {"c": [6, 5], "k": [[7 + i % 17, None]]}], [7, None]]}]]}})
+                [l, {"c": [5, 5], "k": [[7, None], [8, None]] if i % 2 else [[8, None], [7, None], [8, None]]}]]}})
     return {"kind": "forest", "nets": nets, "links_enum": case.get("links_enum", False), "ak": case.get("ak")}
 
 
@@ -694,7 +759,8 @@ def eval_scale_forests(ctx, cases):
             impl = impl_tables(fc, seconds=120)
             lean_fc = dict(fc, nets=[dict(n, tree=lean_tree(n["tree"])) for n in fc["nets"]])
             out = ctx.lean(forest_reqs(lean_fc, impl))
-            ctx.tag("scale_forest_%s_%d" % (c["shape"], c["n"]))
+            ctx.tag("scale_forest_%s_%d_%s" % (c["shape"], c["n"], "ok" if "ok" in impl else "hang" if "hang" in impl
+                                               else impl["err"][0]))
             judge_forest(ctx, c, fc, impl, out, label="scale (%s, %d): " % (c["shape"], c["n"]))
     finally:
         sys.setrecursionlimit(old)
@@ -1989,7 +2055,7 @@ def gen_session(rng):
         if rng.random() < 0.3:
             # the network fails once during the load: the n-th datagram of this step is lost (request or reply), answered
             # with a retryable or a fatal return code, or it and all its retransmissions are lost
-            step["fault"] = {"at": rng.randrange(8), "kind": rng.choice(["lost_request", "lost_reply", "lost_reply",
+            step["fault"] = {"at": rng.choice([0, 0, 1, 1, 2, 2, 3, 3, 4, 5]), "kind": rng.choice(["lost_request", "lost_reply", "lost_reply",
                                                                           "rc_retry", "rc_fatal", "dead"]),
                              "code": rng.choice([0x81, 0x83, 0x84, 0x87, 0x8e])}
         # which of the two controllers of the session loads / reads back; what the caller then does, in place, with
@@ -2232,6 +2298,7 @@ def gen_codec(rng, n):
 def eval_codec(ctx, cases):
     """16-byte record: the pack string and unpack_routing_table_entry on arbitrary bytes against the model,
     plus the round trip on the implementation"""
+    from harness import common
     from rig.machine_control import machine_controller as mcm
     from rig.machine_control import consts
     reqs = []
@@ -2250,6 +2317,10 @@ def eval_codec(ctx, cases):
                 impl = {"ok": canon_dec(limited(2, lambda: mcm.unpack_routing_table_entry(packed)))}
             except struct.error:
                 impl = {"err": "struct.error"}
+            except common.ImplHang as e:
+                _HANGS[0] += 1
+                ctx.violation("did-not-return", "unpack_routing_table_entry did not return: %s" % (e,), c)
+                continue
             ctx.tag("unpack_" + ("err" if "err" in impl else "unused" if impl["ok"] is None else "used"))
             if impl != r:
                 ctx.mismatch("c10.unpack", "impl=%r model=%r" % (impl, r), c)
@@ -2317,18 +2388,18 @@ def run(ctx):
         "their replies (general loss and reordering are C06/C07)"]
     mult = 4 if ctx.extended else 1
     n_forest = ctx.scale(1000, 30000) * mult
-    n_load = ctx.scale(120, 1800) * mult
+    n_load = ctx.scale(120, 1500) * mult
     n_codec = ctx.scale(2000, 40000) * mult
     forests = [gen_forest(ctx.rng) for _ in range(n_forest)]
     for i in range(0, len(forests), 2000):
         eval_forests(ctx, forests[i:i + 2000])
-    fh = [gen_fhist(ctx.rng) for _ in range(ctx.scale(40, 1500) * mult)]
+    fh = [gen_fhist(ctx.rng) for _ in range(ctx.scale(30, 500) * mult)]
     for i in range(0, len(fh), 500):
         eval_fhists(ctx, fh[i:i + 500])
     eval_codec(ctx, gen_codec(ctx.rng, n_codec))
     eval_loads(ctx, gen_load_cases(ctx, n_load))
     eval_loads(ctx, gen_load_cases(ctx, ctx.scale(30, 300) * mult, lost=True))
-    eval_sessions(ctx, [gen_session(ctx.rng) for _ in range(ctx.scale(24, 400) * mult)])
+    eval_sessions(ctx, [gen_session(ctx.rng) for _ in range(ctx.scale(24, 300) * mult)])
     # scale: a handful of cases far beyond the usual size (CPU limits raised accordingly)
     sc = [{"kind": "forest_scale", "shape": "chain", "n": ctx.scale(1200, 3000)},
           {"kind": "forest_scale", "shape": "star", "n": ctx.scale(600, 5000), "ak": {
